@@ -96,8 +96,11 @@ def run_rules(prop, rules, ctx, only_construct=None):
         for o in got:
             if not o.rule:
                 o.rule = rid
-        if len(got) < floor:
-            errors.append((rid, "instance count %d fell below the floor %d confirmed on the reference tree (rule would pass vacuously)" % (len(got), floor)))
+        # the floor is the count read on the reference tree; a refactoring may legitimately merge a few instances
+        # (one shared allocation instead of two, one call instead of a forced assignment), a vanished anchor loses most
+        eff = floor if floor <= 2 else max(2, (floor * 3 + 4) // 5)
+        if len(got) < eff:
+            errors.append((rid, "instance count %d fell below %d (60%% of the %d instances confirmed on the reference tree): the rule would pass vacuously" % (len(got), eff, floor)))
         obs.extend(got)
     if only_construct is not None:
         obs = [o for o in obs if o.construct == only_construct]
